@@ -7,5 +7,5 @@ CONSTANTS
   Emit = TRUE
 INIT Init
 NEXT Next
-INVARIANTS IntendedExact AsisExactWhenIncluded AsisCharacterised SplitIsExact EmitVec
+INVARIANTS CurrentExact SplitIsExact PinnedExactWhenIncluded PinnedCharacterised EmitVec
 CHECK_DEADLOCK FALSE
